@@ -251,6 +251,16 @@ def replay(spec):
     ref = max(1.0, np.abs(Tout @ x / scale).max())
     if min(errs) > 1e-2 * ref:
         fails.append('state_difference(pva, correct_pva(pva, eps x))/eps deviates from T_out x by %.3g (scale %.3g)' % (min(errs), ref))
+    # a pure position correction of a kilometre: the velocity and attitude blocks must follow
+    # T_out x on their own scale (they are exactly unchanged in the unmodified code)
+    xp = np.zeros(n)
+    xp[:2] = [1500.0, -2000.0]
+    pc = em.correct_pva(pva, xp)
+    d = transform.compute_state_difference(pva, pc).values
+    w = Tout @ xp
+    if np.abs(d[3:6] - w[3:6]).max() > 1e-5 or np.abs(d[6:9] - w[6:9]).max() > 1e-5:
+        fails.append('a pure position correction changes velocity / attitude: velocity by %s m/s, attitude by %s deg (T_out x predicts %s, %s)' % (
+            d[3:6].tolist(), d[6:9].tolist(), w[3:6].tolist(), w[6:9].tolist()))
     e = pd.Series([pt.get('e_%s' % c, 0.5) for c in TRAJECTORY_ERROR_COLS], index=TRAJECTORY_ERROR_COLS)
     if not wa:
         e['down'] = 0.0
